@@ -352,7 +352,9 @@ def run_case(case):
     #      closed operands and every neighbourhood of it leaves the union, so it is a boundary point of the union
     spec = case["spec"]
     if any(r.startswith("contact@") for r in info.get("relations", [])) and spec.get("op") == "union" \
-            and "prim" in spec["a"] and "prim" in spec["b"] and Db is not None and not info.get("scale"):
+            and "prim" in spec["a"] and "prim" in spec["b"] and Db is not None and not info.get("scale") \
+            and any(o["prim"] in ("circle", "sphere") for o in (spec["a"], spec["b"])) \
+            and any(r == "union:tangent" for r in info.get("relations", [])[-1:]):
         balls = [o for o in (spec["a"], spec["b"]) if o["prim"] in ("circle", "sphere")]
         other = spec["b"] if balls[0] is spec["a"] else spec["a"]
         c0, r0 = np.asarray(balls[0]["center"], float), float(balls[0]["radius"])
